@@ -149,6 +149,9 @@ def render_body(body, ind, explicit, out):
             if ins.optional or explicit:
                 a.append('optional="%s"' % _b(ins.optional))
             inner = (escape(ins.value) if ins.value is not None else "") + "".join(_comment(ins.comment, ""))
+            if explicit and ins.value is not None and ins.comment:
+                # the twin rendering also writes the documentation first and the hard-coded value after it
+                inner = "".join(_comment(ins.comment, "")) + escape(ins.value)
             out.append("%s<field %s%s" % (ind, " ".join(a), ">%s</field>" % inner if inner else "/>"))
         elif k == "array":
             a = ["name=%s" % quoteattr(ins.name), "type=%s" % quoteattr(ins.type)]
